@@ -41,7 +41,8 @@ RULE = (
     '(valid, and sometimes preceding the parent), from routines on every '
     'clock kind and from the top level. Non-trivial = two bundles with equal '
     'time from different routines, or a nested bundle, or a positive latency '
-    'inside a routine on a clock with tempo != 1. Distinct by sha1.')
+    'inside a routine on a clock with tempo != 1. Distinct by sha1.'
+    ' RT programs include busy steps and routines stepped by hand from the main thread (next); nrt_close stage: top-level bundles at absolute times closer than 2**-32 s.')
 ASSUMPTIONS = [
     'RT timetags are compared up to timetag resolution (2**-32 s, one unit '
     'of slack for float truncation).',
